@@ -67,6 +67,35 @@ def run_case(c):
             if SwitcherBaseResponse(v).successful != (v is not None and len(v) > 0):
                 return {"ok": False, "detail": "SwitcherBaseResponse.successful"}
         return {"ok": True, "evaluations": i["n"] + 4}
+    if k == "breeze_steps":
+        # the four-step thermostat exchange with one step's reply empty: never reported as success
+        from aioswitcher.api.remotes import SwitcherBreezeRemote
+        from aioswitcher.device import DeviceState, ThermostatFanLevel, ThermostatMode, ThermostatSwing
+        from .n_c15 import gen_irset
+        from .n_c16 import state_reply
+        rnd = random.Random(i["seed"])
+        n = 0
+        for j in range(i["n"]):
+            irs = gen_irset(rnd, density=1.0, sep=(j % 2 == 0))
+            remote = SwitcherBreezeRemote(irs)
+            pick = lambda xs: rnd.choice([None] + list(xs))
+            state, mode, fan, swing = pick(DeviceState), pick(ThermostatMode), pick(ThermostatFanLevel), pick(ThermostatSwing)
+            if mode is not None and mode not in remote.supported_modes:
+                mode = None
+            t = rnd.choice([0, 24])
+            update = rnd.random() < 0.25
+            for empty_step in range(4):
+                replies = [bytes(rnd.randrange(256) for _ in range(44)), state_reply(rnd), b"\x01" * 20, b"\x02" * 20]
+                replies[empty_step] = b""
+                a = n_api.make(2, bytes(3), b"\x00", list(replies))
+                kk, v = n_api.call(a, "control_breeze_device", [remote, state, mode, t, fan, swing, update], 1700000000)
+                n += 1
+                consumed = a._reader.n if isinstance(a._reader.n, int) else len(a._reader.n)
+                if kk == "ret" and v.successful and consumed > empty_step:
+                    return {"ok": False, "evaluations": n, "detail": "success reported although the reply of step %d was empty" % (empty_step + 1),
+                            "outcome": dict(irset=irs["IRSetID"], state=state and state.name, mode=mode and mode.name, fan=fan and fan.name,
+                                            swing=swing and swing.name, target=t, update_state=update, empty_step=empty_step + 1, replies_read=consumed)}
+        return {"ok": True, "evaluations": n}
     if k == "prefixes":
         base = os.path.join(os.environ.get("PYVC_REPO", "/repo"), "tests", "testresources", "dummy_responses")
         n = 0
